@@ -192,7 +192,15 @@ class OptimizerGeneric:
                                        tol=tol)
         # leave the optic in the state of the returned solution (the last point
         # evaluated by the solver is generally not the solution it returns)
-        self._fun(result.x)
+        f_returned = self._fun(result.x)
+        # some methods (bounded Powell) never evaluate the starting point and
+        # can return a point that is worse than it: keep the start in that case
+        f_start = self._fun(x0)
+        if f_start < f_returned:
+            result.x = np.asarray(x0, dtype=float)
+            result.fun = f_start
+        else:
+            self._fun(result.x)
         return result
 
     def undo(self):
